@@ -28,7 +28,7 @@
     the pipeline makes on L, to the encoded-slash check or to what it hands over (see C13/Proofs.v). *)
 From HV Require Import Base.Prelude Base.GoUrl C13.Http C13.Model C13.Proofs.
 
-(** ------------------------------------------------------------------ the tree as it is (/repo, abe584c) *)
+(** ------------------------------------------------------------------ the tree as it is (/repo since f446e16) *)
 
 (** the property: same decision, same matched rule, same hand-over at all three entry points.
     [guards_fire ... repo_now] only looks at cookies (F5), Headers() (F8) and blank-padded values of a
@@ -258,6 +258,26 @@ Theorem C13_F7_pinned_refuted :
 Proof. exact F7_refuted. Qed.
 Print Assumptions C13_F7_pinned_refuted.
 
+Theorem C13_F9_pinned_refuted :
+  wf_lreqb w9_req = true /\ g_F9_query w9_req QBody = true /\ guards_fire w_decode w7_find tree_F9 w9_req = true /\
+  s_handover (serve_decision w_decode w7_find tree_F9 w9_req) = Some {| ho_headers := [("X-Body", "{""user"":1}")]%string; ho_cookies := [] |} /\
+  s_handover (serve_envoy w_decode w7_find tree_F9 w9_req) = Some {| ho_headers := [("X-Body", json_empty_string)]; ho_cookies := [] |} /\
+  guards_fire w_decode w7_find repo_now w9_req = false /\
+  serve_decision w_decode w7_find repo_now w9_req = serve_envoy w_decode w7_find repo_now w9_req.
+Proof. exact F9_refuted. Qed.
+Print Assumptions C13_F9_pinned_refuted.
+
+Theorem C13_F11_pinned_refuted :
+  wf_lreqb w11_req = true /\ g_F11 w11_req = true /\ guards_fire w_decode w11_find tree_F11 w11_req = true /\
+  s_handover (serve_decision w_decode w11_find tree_F11 w11_req) = Some {| ho_headers := [("X-User", "abc"); ("X-Q", "x=1")]%string; ho_cookies := [] |} /\
+  s_handover (serve_envoy w_decode w11_find tree_F11 w11_req) = Some {| ho_headers := [("X-User", "abc?x=1"); ("X-Q", "")]%string; ho_cookies := [] |} /\
+  s_err (serve_decision w_decode w11_find_literal tree_F11 w11_req) = None /\
+  s_err (serve_envoy w_decode w11_find_literal tree_F11 w11_req) = Some ENoRule /\
+  guards_fire w_decode w11_find repo_now w11_req = false /\
+  serve_decision w_decode w11_find repo_now w11_req = serve_envoy w_decode w11_find repo_now w11_req.
+Proof. exact F11_refuted. Qed.
+Print Assumptions C13_F11_pinned_refuted.
+
 (** ------------------------------------------------------------------ the open findings: each guard is needed *)
 Theorem C13_F3b_refuted :
   let adds := [AddHeader "X-Out" " a "; AddHeader "X-Out" "b"] in
@@ -283,28 +303,8 @@ Theorem C13_F5_refuted_handover : forall fixed3,
 Proof. exact F5_refuted_handover. Qed.
 Print Assumptions C13_F5_refuted_handover.
 
-Theorem C13_F9_pinned_refuted :
-  wf_lreqb w9_req = true /\ g_F9_query w9_req QBody = true /\ guards_fire w_decode w7_find tree_F9 w9_req = true /\
-  s_handover (serve_decision w_decode w7_find tree_F9 w9_req) = Some {| ho_headers := [("X-Body", "{""user"":1}")]%string; ho_cookies := [] |} /\
-  s_handover (serve_envoy w_decode w7_find tree_F9 w9_req) = Some {| ho_headers := [("X-Body", json_empty_string)]; ho_cookies := [] |} /\
-  guards_fire w_decode w7_find repo_now w9_req = false /\
-  serve_decision w_decode w7_find repo_now w9_req = serve_envoy w_decode w7_find repo_now w9_req.
-Proof. exact F9_refuted. Qed.
-Print Assumptions C13_F9_pinned_refuted.
-
-Theorem C13_F11_pinned_refuted :
-  wf_lreqb w11_req = true /\ g_F11 w11_req = true /\ guards_fire w_decode w11_find tree_F11 w11_req = true /\
-  s_handover (serve_decision w_decode w11_find tree_F11 w11_req) = Some {| ho_headers := [("X-User", "abc"); ("X-Q", "x=1")]%string; ho_cookies := [] |} /\
-  s_handover (serve_envoy w_decode w11_find tree_F11 w11_req) = Some {| ho_headers := [("X-User", "abc?x=1"); ("X-Q", "")]%string; ho_cookies := [] |} /\
-  s_err (serve_decision w_decode w11_find_literal tree_F11 w11_req) = None /\
-  s_err (serve_envoy w_decode w11_find_literal tree_F11 w11_req) = Some ENoRule /\
-  guards_fire w_decode w11_find repo_now w11_req = false /\
-  serve_decision w_decode w11_find repo_now w11_req = serve_envoy w_decode w11_find repo_now w11_req.
-Proof. exact F11_refuted. Qed.
-Print Assumptions C13_F11_pinned_refuted.
-
 Theorem C13_F8_refuted :
-  g_F8_query QHeaders = true /\ guards_fire w_decode w8_find repo_now w6_req = true /\
+  wf_lreqb w6_req = true /\ g_F8_query QHeaders = true /\ guards_fire w_decode w8_find repo_now w6_req = true /\
   s_handover (serve_decision w_decode w8_find repo_now w6_req) = Some {| ho_headers := [("X-Host", "a.example.com")]%string; ho_cookies := [] |} /\
   s_handover (serve_envoy w_decode w8_find repo_now w6_req) = Some {| ho_headers := [("X-Host", "")]%string; ho_cookies := [] |}.
 Proof. exact F8_refuted. Qed.
@@ -371,21 +371,19 @@ Proof. exact F10_refuted. Qed.
 Print Assumptions C13_F10_pinned_refuted.
 
 (** ------------------------------------------------------------------ over time: requests in flight together *)
-(** [flight]: the requests being processed, each with the cache of its own context; an operation is
-    "the pipeline of request i reads the body".  Whatever other requests are in flight and in whatever
-    order the pipelines read, a read of request i's body returns the decoding of request i's own body
-    ([bodyf] = the body accessor of an entry point) *)
-Theorem C13_body_reads_stable : forall bodyf ops st,
+(** (Lemmas about the MODEL's assumption, not counted as property theorems.)  The model gives every request
+    in flight its own context with its own cache of the decoded body and ASSUMES that the contexts share no
+    state.  Under that assumption a read of request i's body returns the decoding of request i's own body
+    whatever else is read in between, and the HTTP and Envoy accessors agree on every sequence of reads.
+    Whether the implementation satisfies the assumption (pooled buffers, aliasing decoders, ...) is what the
+    correspondence stream `interleaved` tests; these lemmas cannot fail for any implementation. *)
+Lemma C13_body_reads_stable : forall bodyf ops st,
   flight_ok bodyf st ->
   Forall (fun iv => snd iv = option_map bodyf (nth_error (map fst st) (fst iv))) (run_reads bodyf ops st).
 Proof. exact body_reads_stable. Qed.
-Print Assumptions C13_body_reads_stable.
 
-(** ... and the HTTP entry points and the Envoy entry point return the same values for every sequence
-    of reads (outside the body guards F7/F9 as far as they are open in [fx]) *)
-Theorem C13_body_reads_agree : forall decode fx ops (st : flight),
+Lemma C13_body_reads_agree : forall decode fx ops (st : flight),
   Forall (fun L => wf_lreqb L = true /\ guard_query decode fx SOff [] L QBody = false) (map fst st) ->
   run_reads (fun L => a_body (acc_http decode L)) ops st =
   run_reads (fun L => a_body (acc_envoy decode fx (mk_envoy L))) ops st.
 Proof. exact body_reads_agree. Qed.
-Print Assumptions C13_body_reads_agree.
